@@ -1,10 +1,10 @@
 SPECIFICATION Spec
 CONSTANTS
-  MaxOps = 3
-  Groups = {"list", "listns", "tree", "arr", "mat", "ds", "memo", "seed"}
+  MaxOps = 4
+  Groups = {"memo", "seed", "tree"}
   Big = FALSE
-  Focus = "D"
-  Wide = TRUE
+  Focus = ""
+  Wide = FALSE
   ShipDsAdd = FALSE
   ShipMatPartial = FALSE
   ShipCloneDrop = FALSE
